@@ -59,6 +59,8 @@ type InlineOpts struct {
 	Keep  map[*ssa.Function]bool
 	Depth int                        // maximal nesting (default 3)
 	Bool  bool                       // also inline boolean predicates
+	Havoc bool                       // loop-carried values are unknown inside loops (cycle analyses: an arbitrary iteration, not the first)
+	None  bool                       // no inlining at all (only the other switches apply)
 	Loops bool                       // keep a helper inlined even when one of its loops is cut (cycle analyses)
 	Pred  func(g *ssa.Function) bool // if set, decides which callees are inlined (replaces the result-based default)
 }
@@ -113,6 +115,16 @@ func (c *Ctx) wasInlined(p *Path, call *ssa.Call) bool {
 	return false
 }
 
+// isLoopHeader: some predecessor of b is dominated by b (a back edge enters here).
+func isLoopHeader(b *ssa.BasicBlock) bool {
+	for _, p := range b.Preds {
+		if p == b || b.Dominates(p) {
+			return true
+		}
+	}
+	return false
+}
+
 // frameK: what happens when the frame being walked returns.
 type frameK func(p *Path, ret *ssa.Return)
 
@@ -140,10 +152,16 @@ func (w *pathWalker) enter(b, pred *ssa.BasicBlock, p *Path, on map[*ssa.BasicBl
 			}
 		}
 		newPhi := map[*ssa.Phi]ssa.Value{}
+		havoc := w.inline != nil && w.inline.Havoc && isLoopHeader(b)
 		for _, in := range b.Instrs {
 			ph, ok := in.(*ssa.Phi)
 			if !ok {
 				break
+			}
+			if havoc {
+				// a value carried round the loop: on an arbitrary iteration it is not the entry value
+				delete(p.Env.phi, ph)
+				continue
 			}
 			if idx >= 0 {
 				v, e2 := w.c.resolveE(ph.Edges[idx], p.Env)
@@ -155,6 +173,11 @@ func (w *pathWalker) enter(b, pred *ssa.BasicBlock, p *Path, on map[*ssa.BasicBl
 							v = r
 						}
 					}
+				}
+				if mentions(v, ph, 0) {
+					// the new value is an expression over the old one, which is not known: unknown
+					delete(p.Env.phi, ph)
+					continue
 				}
 				newPhi[ph] = v
 			}
@@ -297,7 +320,7 @@ func (w *pathWalker) next(from, to *ssa.BasicBlock, p *Path, on map[*ssa.BasicBl
 	if on[to] > 0 {
 		// a back edge. When helpers are read in place, a loop whose continuation test folds to a constant
 		// under the values of this path (a range over a literal argument list) is unrolled, at most 8 times.
-		if w.inline != nil && on[to] < 8 && w.headerFolds(from, to, p) {
+		if w.inline != nil && !w.inline.None && on[to] < 8 && w.headerFolds(from, to, p) {
 			// the next iteration may pass through the loop's blocks again: they are no longer "on the path"
 			on2 := make(map[*ssa.BasicBlock]int, len(on))
 			for b, n := range on {
@@ -342,7 +365,12 @@ func (w *pathWalker) headerFolds(from, to *ssa.BasicBlock, p *Path) bool {
 		if !ok {
 			break
 		}
-		tmp.phi[ph] = w.c.resolve(ph.Edges[idx], p.Env)
+		nv := w.c.resolve(ph.Edges[idx], p.Env)
+		if mentions(nv, ph, 0) {
+			delete(tmp.phi, ph)
+			continue
+		}
+		tmp.phi[ph] = nv
 	}
 	if kc, ok := w.c.resolve(iff.Cond, tmp).(*ssa.Const); ok && kc.Value != nil && kc.Value.Kind() == constant.Bool {
 		return true
@@ -362,7 +390,7 @@ func (w *pathWalker) emit(p *Path) {
 // inlineTarget decides whether the call is replaced by the callee's paths.
 func (w *pathWalker) inlineTarget(call *ssa.Call, p *Path) *ssa.Function {
 	o := w.inline
-	if o == nil {
+	if o == nil || o.None {
 		return nil
 	}
 	g := w.c.calleeE(call, p.Env)
